@@ -32,6 +32,8 @@ IMPORTS = progs.ALL_IMPORTS
 CONFIGS = {
     "sim": {"variant": "sim", "imports": IMPORTS, "timeout_ms": 120000},
     "asan": {"variant": "asan", "imports": IMPORTS, "timeout_ms": 240000},
+    # 128-byte port buffers and a 1024-slot initial stack: buffer flushes and stack re-allocations inside almost every operation
+    "tiny": {"variant": "tiny", "imports": IMPORTS, "timeout_ms": 120000},
 }
 
 _baselines = {}
@@ -141,7 +143,7 @@ def generate(rng, tier, index, seed):
         elif mode == "bernoulli":
             spec["p1024"] = rng.choice([1, 4, 16, 64])
             spec["seed"] = rng.below(1 << 30)
-    variant = "asan" if (rng.chance(1, 6) and not heavy) else "sim"
+    variant = "asan" if (rng.chance(1, 6) and not heavy) else ("tiny" if (rng.chance(1, 4) and not heavy) else "sim")
     case = {
         "prop": ID, "index": index, "seed": seed, "config": variant,
         "meta": {"family": fam, "program": name},
